@@ -140,8 +140,123 @@ package ociregistry
 //@   ensures[yields-exactly-the-error] calls == [yield(_, err)]
 
 // ---------------------------------------------------------------------------
-// Error rendering (C07 proves these; C06 uses them).
+// C07: errors keep their identity, status and message across the wire.
+//
+// SP(status) and CP(code) are the two prefix printers as (unspecified) pure
+// functions: the printers and the trimmer use the same ones, which is all the
+// message lemma needs. Interface observers of errors are deterministic and
+// effect-free; errAs(err, T) is the selector behind errors.As.
+
+//@ iface-pure Error.Code, Error.Detail, HTTPError.StatusCode, HTTPError.Response, HTTPError.ResponseBody, error.Error
+
+//@ invariant (*WireError) self != nil
+//@ invariant (*httpError) self != nil
+// A WireErrors value holds at least one error (it is built from a non-empty
+// JSON error list, see makeError1; Error() indexes Errors[0]).
+//@ invariant (*WireErrors) self != nil && len(self.Errors) >= 1
+
+//@ func (*WireErrors).Unwrap
+//@   modifies nothing
+//@   loop 0 invariant len(errs) == len(e.Errors)
+//@ func (*WireError).Detail
+//@   modifies nothing
+//@   ensures result == e.Detail_
+//@ func (*httpError).StatusCode
+//@   modifies nothing
+//@   ensures result == e.statusCode
+
+//@ pure func SP(status int) string
+//@ pure func CP(code string) string
+
+// The two prefix appenders, as functions on the byte buffer seen as a string.
+// (trusted: strconv.AppendInt / http.StatusText / the rune loop are not modelled)
+//@ func appendHTTPStatusPrefix
+//@   trusted
+//@   modifies nothing
+//@   ensures string(result) == string(buf) + SP(statusCode)
+//@ func appendErrorCodePrefix
+//@   trusted
+//@   modifies nothing
+//@   ensures string(result) == string(buf) + CP(code)
+
+//@ func (*WireError).Error
+//@   requires e != nil
+//@   modifies nothing
+//@   ensures[code-prefix-then-message] result == CP(e.Code_) + (e.Message != "" ? ": " + e.Message : "")
+
+//@ func (*WireError).Code
+//@   requires e != nil
+//@   modifies nothing
+//@   ensures result == e.Code_
+
+//@ func (*WireError).Is
+//@   requires e != nil
+//@   modifies nothing
+//@   ensures[same-code] result == (errAs(err, Error) != nil && errAs(err, Error).Code() == e.Code_)
+
+//@ func (*httpError).Error
+//@   requires e != nil
+//@   modifies nothing
+//@   ensures[status-prefix-then-underlying] result == SP(e.statusCode) + (e.underlying != nil ? ": " + e.underlying.Error() : "")
+
+//@ func (*httpError).Is
+//@   requires e != nil
+//@   modifies nothing
+//@   ensures[range-invalid-only] result == (e.statusCode == 416 && err == ErrRangeInvalid)
+
+//@ func NewError
+//@   modifies nothing
+//@   ensures result != nil && result.Code() == code
+
+//@ func NewHTTPError
+//@   modifies nothing
+//@   ensures result != nil && result.StatusCode() == statusCode
+
+// The trimmer removes exactly the two prefixes the printers add.
+//@ func trimErrorCodePrefix
+//@   requires err != nil
+//@   modifies nothing
+//@   ensures[trims-both-prefixes] result ==
+//@     trimPrefix(trimPrefix(err.Error(), httpStatus != 0 ? SP(httpStatus) + ": " : ""),
+//@                errorCode != "" ? CP(errorCode) + ": " : "")
+
+// MarshalError: the code is the first Error in the chain (or UNKNOWN), the
+// status is the specification's for that code, else the error's own HTTP
+// status, else 500. It panics only if encoding/json rejects the value, i.e.
+// when the error's detail is not valid JSON.
+//@ pure func wireCode(err error) string =
+//@   (errAs(err, Error) != nil && errAs(err, Error).Code() != "") ? errAs(err, Error).Code() : "UNKNOWN"
+//@ func MarshalError
+//@   requires err != nil
+//@   modifies nothing
+//@   panics when err != nil
+//@   ensures[status-agrees-with-code] result.1 == specStatus(wireCode(err), errAs(err, HTTPError) != nil ? errAs(err, HTTPError).StatusCode() : 500)
+
+// specStatus is the table of the distribution specification (written from the
+// specification, not from the code; the code's table is compared with it by
+// the structural obligation error-table).
+//@ pure func specStatus(code string, fallback int) int =
+//@   (code == "BLOB_UNKNOWN" || code == "BLOB_UPLOAD_UNKNOWN" || code == "MANIFEST_BLOB_UNKNOWN" ||
+//@    code == "MANIFEST_UNKNOWN" || code == "NAME_UNKNOWN") ? 404 :
+//@   ((code == "DIGEST_INVALID" || code == "MANIFEST_INVALID" || code == "NAME_INVALID" ||
+//@     code == "SIZE_INVALID" || code == "UNSUPPORTED") ? 400 :
+//@   ((code == "BLOB_UPLOAD_INVALID" || code == "RANGE_INVALID") ? 416 :
+//@   (code == "UNAUTHORIZED" ? 401 : (code == "DENIED" ? 403 : (code == "TOOMANYREQUESTS" ? 429 : fallback)))))
 
 //@ func WriteError
 //@   requires w != nil && err != nil
 //@   modifies nothing
+//@   ensures[json-error-with-agreeing-status] header("Content-Type") == "application/json" &&
+//@     status() == specStatus(wireCode(err), errAs(err, HTTPError) != nil ? errAs(err, HTTPError).StatusCode() : 500)
+
+// The message reaches a fixed point after the first hop: what the client
+// prints for the error it rebuilt (status prefix, code prefix, message) is
+// trimmed back to the same message by the next server, for every non-empty
+// message, whatever the two prefixes are.
+//@ lemma hopMessageFixedPoint(sp string, cp string, m string) =
+//@   m != "" ==> trimPrefix(trimPrefix(sp + ": " + cp + ": " + m, sp + ": "), cp + ": ") == m
+// With an empty message the client prints "SP: CP" and the next hop keeps CP
+// as the message: the fixed point is reached one hop later (stated, not a defect
+// of identity or status).
+//@ lemma hopEmptyMessageSecondHop(sp string, cp string) =
+//@   trimPrefix(trimPrefix(sp + ": " + cp + ": " + cp, sp + ": "), cp + ": ") == cp
